@@ -430,6 +430,330 @@ theorem leading_dot_counterexample :
 
 end Examples
 
+/-! ## Whole service: methods are judged one by one (no state shared between methods) -/
+
+/-- **Per-method independence**: a service loads iff every method loads, and entry `i` of the result is
+`lroInfo` of method `i` alone — whatever annotations the other methods carry (two methods sharing a
+response type but not a metadata type, the same type as response of one and metadata of another, …). -/
+theorem loadService_ok_iff (api : Api) (f : File) (ms : List Method) (xs : List (Option (Str × Str))) :
+    loadService api f ms = .ok xs ↔ ms.map (lroInfo api f) = xs.map .ok := by
+  induction ms generalizing xs with
+  | nil =>
+    cases xs <;> simp [loadService]
+  | cons m ms ih =>
+    simp only [loadService, List.map_cons]
+    cases h1 : lroInfo api f m with
+    | error e => cases xs <;> simp
+    | ok x =>
+      cases h2 : loadService api f ms with
+      | error e =>
+        cases xs with
+        | nil => simp
+        | cons y ys =>
+          simp only [List.map_cons, List.cons.injEq, Except.ok.injEq]
+          constructor
+          · intro h; cases h
+          · rintro ⟨_, h⟩
+            have := (ih ys).mpr h
+            rw [h2] at this; cases this
+      | ok zs =>
+        have hz := (ih zs).mp h2
+        cases xs with
+        | nil => simp
+        | cons y ys =>
+          simp only [List.map_cons, List.cons.injEq, Except.ok.injEq]
+          constructor
+          · rintro ⟨rfl, rfl⟩; exact ⟨rfl, hz⟩
+          · rintro ⟨rfl, h⟩
+            have := (ih ys).mpr h
+            rw [h2] at this
+            cases this; exact ⟨rfl, rfl⟩
+
+/-- the first method that cannot be loaded decides the generation outcome -/
+theorem loadService_first_error (api : Api) (f : File) (pre : List Method) (m : Method) (post : List Method) (e : Err)
+    (hpre : ∀ p ∈ pre, ∃ x, lroInfo api f p = .ok x) (hm : lroInfo api f m = .error e) :
+    loadService api f (pre ++ m :: post) = .error e := by
+  induction pre with
+  | nil => simp [loadService, hm]
+  | cons a pre ih =>
+    obtain ⟨x, hx⟩ := hpre a (by simp)
+    have := ih (fun p hp => hpre p (by simp [hp]))
+    simp [loadService, hx, this]
+
+/-- **Rejection at the level of the service**: one annotated Operation-returning method lacking a type name
+(annotation present with both names empty included) makes the whole build raise `TypeError`, provided
+the methods before it load. -/
+theorem service_with_incomplete_annotation_rejected (api : Api) (f : File) (pre : List Method) (m : Method)
+    (post : List Method) (op : OpInfo)
+    (hpre : ∀ p ∈ pre, ∃ x, lroInfo api f p = .ok x)
+    (hout : isOperation m.output = true) (hinfo : m.opInfo = some op) (h : op.response = [] ∨ op.metadata = []) :
+    loadService api f (pre ++ m :: post) = .error .typeError :=
+  loadService_first_error api f pre m post _ hpre (missing_type_rejected api f m op hout hinfo h).1
+
+/-- the transport has an operations client iff some method is an LRO -/
+theorem hasLro_iff (xs : List (Option (Str × Str))) : hasLro xs = true ↔ ∃ p, some p ∈ xs := by
+  simp only [hasLro, List.any_eq_true]
+  constructor
+  · rintro ⟨x, hx, hs⟩
+    cases x with
+    | none => simp at hs
+    | some p => exact ⟨p, hx⟩
+  · rintro ⟨p, hp⟩; exact ⟨some p, hp, rfl⟩
+
+/-! ## The name of api-core's `operation` module in the emitted client -/
+
+/-- **The constructor call uses the name the import binds** — with or without an alias. -/
+theorem futureCode_callee_bound (async : Bool) (v : Str) (coll res : List Str) (c : FutureCode)
+    (h : futureCode async v coll res = some c) : c.callee = c.importAs ∧ c.importModule = futureModule async := by
+  simp only [futureCode, Option.map_eq_some_iff] at h
+  obtain ⟨a, _, rfl⟩ := h
+  exact ⟨rfl, rfl⟩
+
+/-- no collision ⇒ no alias: `from google.api_core import operation`, `operation.from_gapic(…)` -/
+theorem futureCode_plain (async : Bool) (v : Str) (coll res : List Str)
+    (h1 : futureModule async ∉ coll) (h2 : futureModule async ∉ res) :
+    futureCode async v coll res = some ⟨futureModule async, futureModule async, futureModule async⟩ := by
+  simp [futureCode, moduleAlias, h1, h2, boundName]
+
+/-- a collision on `operation` (a proto file `operation.proto` whose types the service uses, an rpc named
+`Operation`) ⇒ import AND call use `gac_operation` -/
+theorem futureCode_collision (v : Str) (coll res : List Str)
+    (hv1 : v ≠ ['g','o','o','g','l','e']) (hv2 : v ≠ ['a','p','i','_','c','o','r','e'])
+    (h : ['o','p','e','r','a','t','i','o','n'] ∈ coll) :
+    futureCode false v coll res = some ⟨['o','p','e','r','a','t','i','o','n'],
+      ['g','a','c','_','o','p','e','r','a','t','i','o','n'], ['g','a','c','_','o','p','e','r','a','t','i','o','n']⟩ := by
+  have c1 : coll.contains (futureModule false) = true := by simpa [futureModule] using h
+  have f1 : ((['g','o','o','g','l','e'] : Str) != v) = true := by simpa using fun h => hv1 h.symm
+  have f2 : ((['a','p','i','_','c','o','r','e'] : Str) != v) = true := by simpa using fun h => hv2 h.symm
+  have hi : initials apiCorePackage v = some ['g','a','c'] := by
+    simp only [initials, apiCorePackage, List.filter, f1, f2]
+    decide
+  simp only [futureCode, moduleAlias, c1, Bool.true_or, if_true, hi]
+  decide
+
+/-! ## REST: which URL the operations client polls -/
+
+/-- only `google.longrunning.Operations.*` rules reach the operations transport -/
+theorem opsHttpTable_only_operations (res : List Str) (rules : List YamlRule) :
+    ∀ e ∈ opsHttpTable res rules, "google.longrunning.Operations".toList.isPrefixOf e.1 = true := by
+  intro e he
+  simp only [opsHttpTable, List.mem_filter] at he
+  exact he.2
+
+/-- a GetOperation rule of the service config replaces the built-in default -/
+theorem yaml_rule_overrides_default (table : List (Str × List Row)) (rows : List Row) (pfx name : Str)
+    (h : table.find? (·.1 == getOperationSelector) = some (getOperationSelector, rows)) :
+    opsGetPath table pfx name = transcodeName rows name := by
+  simp [opsGetPath, h]
+
+/-- without one, the default `/{version}/{name=**/operations/*}` is used -/
+theorem default_rule_without_yaml (table : List (Str × List Row)) (pfx name : Str)
+    (h : table.find? (·.1 == getOperationSelector) = none) :
+    opsGetPath table pfx name =
+      transcodeName [⟨"get".toList, '/' :: pfx ++ "/{name=**/operations/*}".toList, none⟩] name := by
+  simp [opsGetPath, h]
+
+/-- the default pattern accepts exactly-shaped names `<one or more segments>/operations/<id>` -/
+theorem default_pattern_accepts (pre : List Str) (x : Str) (hpre : pre ≠ []) :
+    matchSegs [.dstar, .lit "operations".toList, .star] (pre ++ ["operations".toList, x]) = true := by
+  have unfold1 : ∀ (ps : List Seg) (a : Str) (xs : List Str),
+      matchSegs (.dstar :: ps) (a :: xs) = (matchSegs ps xs || matchSegs (.dstar :: ps) xs) := by
+    intro ps a xs; rw [matchSegs]
+  induction pre with
+  | nil => exact absurd rfl hpre
+  | cons a pre ih =>
+    cases pre with
+    | nil => simp [matchSegs]
+    | cons b pre =>
+      have := ih (by simp)
+      rw [List.cons_append, unfold1, this]
+      simp
+
+/-! ## The future as an object: observing does not change the outcome -/
+
+section Aux
+
+def finalOp (s : Fut) : OpState := (poll s.cached s.pending).1
+def total (s : Fut) : Nat := s.polls + (poll s.cached s.pending).2
+
+theorem poll_done (cur : OpState) (rs : List OpState) (h : cur.done = true) : poll cur rs = (cur, 0) := by
+  cases rs <;> simp [poll, h]
+
+theorem refresh_inv (s : Fut) : finalOp s.refresh = finalOp s ∧ total s.refresh = total s ∧ s.refresh.cancels = s.cancels := by
+  obtain ⟨cached, pending, polls, cancels⟩ := s
+  unfold Fut.refresh finalOp total
+  by_cases hd : cached.done = true
+  · simp [hd]
+  · cases pending with
+    | nil => simp [hd]
+    | cons r rs =>
+      simp only [hd, Bool.false_eq_true, if_false, poll]
+      refine ⟨trivial, ?_, trivial⟩
+      omega
+
+theorem poll_fix (cur : OpState) (rs : List OpState) :
+    poll (poll cur rs).1 (rs.drop (poll cur rs).2) = ((poll cur rs).1, 0) := by
+  induction rs generalizing cur with
+  | nil => simp [poll]
+  | cons r rs ih =>
+    by_cases hd : cur.done = true
+    · rw [poll_done cur (r :: rs) hd]
+      exact poll_done cur _ hd
+    · simp only [poll, hd, Bool.false_eq_true, if_false, List.drop_succ_cons]
+      exact ih r
+
+theorem drain_inv (s : Fut) : finalOp s.drain = finalOp s ∧ total s.drain = total s ∧
+    s.drain.cached = finalOp s ∧ s.drain.polls = total s ∧ s.drain.cancels = s.cancels := by
+  obtain ⟨cached, pending, polls, cancels⟩ := s
+  simp [Fut.drain, finalOp, total, poll_fix]
+
+theorem step_inv (rt mt : Str) (s : Fut) (c : Cmd) :
+    finalOp (step rt mt s c).1 = finalOp s ∧ total (step rt mt s c).1 = total s := by
+  cases c
+  · exact ⟨rfl, rfl⟩
+  · exact ⟨(refresh_inv s).1, (refresh_inv s).2.1⟩
+  · exact ⟨(refresh_inv s).1, (refresh_inv s).2.1⟩
+  · simp only [step]
+    split
+    · exact ⟨(refresh_inv s).1, (refresh_inv s).2.1⟩
+    · exact ⟨(refresh_inv s).1, (refresh_inv s).2.1⟩
+  · exact ⟨(drain_inv s).1, (drain_inv s).2.1⟩
+  · exact ⟨(drain_inv s).1, (drain_inv s).2.1⟩
+
+theorem exec_inv (rt mt : Str) (s : Fut) (cs : List Cmd) :
+    finalOp (exec rt mt s cs).1 = finalOp s ∧ total (exec rt mt s cs).1 = total s := by
+  induction cs generalizing s with
+  | nil => exact ⟨rfl, rfl⟩
+  | cons c cs ih =>
+    simp only [exec]
+    have h1 := step_inv rt mt s c
+    have h2 := ih (step rt mt s c).1
+    exact ⟨h2.1.trans h1.1, h2.2.trans h1.2⟩
+
+theorem exec_append (rt mt : Str) (s : Fut) (a b : List Cmd) :
+    exec rt mt s (a ++ b) = ((exec rt mt (exec rt mt s a).1 b).1, (exec rt mt s a).2 ++ (exec rt mt (exec rt mt s a).1 b).2) := by
+  induction a generalizing s with
+  | nil => simp [exec]
+  | cons c a ih => simp [exec, ih]
+
+end Aux
+
+/-- **Observation is transparent**: whatever the caller does with the future before asking for the
+result (`metadata`, `done()`, `running()`, `cancel()`, `exception()`, `result()` in any order and
+number), `result()` finally gives exactly what a bare `result()` gives, and the total number of
+`GetOperation` polls is the same: the polls up to the first done operation, never more. -/
+theorem observation_transparent (rt mt : Str) (first : OpState) (replies : List OpState) (cmds : List Cmd) :
+    let r := exec rt mt (Fut.init first replies) (cmds ++ [.result])
+    r.2.getLast? = some (.res (runFuture rt mt first replies).result) ∧
+    r.1.polls = (runFuture rt mt first replies).polls := by
+  simp only [exec_append, exec, step]
+  have hi := exec_inv rt mt (Fut.init first replies) cmds
+  have hd := drain_inv (exec rt mt (Fut.init first replies) cmds).1
+  constructor
+  · simp only [List.getLast?_append, List.getLast?_singleton, Option.some_or]
+    rw [hd.2.2.1, hi.1]
+    simp [finalOp, Fut.init, runFuture]
+  · rw [hd.2.2.2.1, hi.2]
+    simp [total, Fut.init, runFuture]
+
+/-- no command ever polls beyond the first done operation -/
+theorem polls_never_exceed_history (rt mt : Str) (first : OpState) (replies : List OpState) (cmds : List Cmd) :
+    (exec rt mt (Fut.init first replies) cmds).1.polls ≤ (poll first replies).2 := by
+  have h := (exec_inv rt mt (Fut.init first replies) cmds).2
+  unfold total at h
+  have h0 : (Fut.init first replies).polls = 0 := rfl
+  have h1 : (Fut.init first replies).cached = first := rfl
+  have h2 : (Fut.init first replies).pending = replies := rfl
+  rw [h0, h1, h2] at h
+  omega
+
+/-- **A completed future is inert**: once the cached operation is done, no command sends anything
+(no poll, no cancel) and `cancel()` answers False. -/
+theorem done_future_is_inert (rt mt : Str) (s : Fut) (h : s.cached.done = true) (cmds : List Cmd) :
+    (exec rt mt s cmds).1 = s := by
+  have hr : s.refresh = s := by simp [Fut.refresh, h]
+  have hdr : s.drain = s := by simp [Fut.drain, poll_done s.cached s.pending h]
+  induction cmds with
+  | nil => rfl
+  | cons c cs ih =>
+    have : (step rt mt s c).1 = s := by
+      cases c <;> simp [step, hr, hdr, h]
+    simp [exec, this, ih]
+
+/-- `cancel()` sends `CancelOperation` exactly when the operation is still not done after one refresh -/
+theorem cancel_sends_iff_running (rt mt : Str) (s : Fut) :
+    (step rt mt s .cancel).1.cancels = s.cancels + (if s.refresh.cached.done then 0 else 1) ∧
+    (step rt mt s .cancel).2 = .flag (!s.refresh.cached.done) := by
+  have := (refresh_inv s).2.2
+  simp only [step]
+  split <;> rename_i h <;> simp [h, this]
+
+/-! ### Non-vacuity for the service / alias / REST / future-object theorems -/
+
+section Examples2
+
+def metaFile : File :=
+  { name := "acme/lib/v1/meta.proto", package := "acme.lib.v1".toList, deps := [],
+    messages := ["acme.lib.v1.DeleteBookMetadata".toList, "acme.lib.v1.DeleteShelfMetadata".toList, "acme.lib.v1.Book".toList] }
+
+def delApi : Api := [emptyFile, metaFile]
+
+def delBook : Method := ⟨"DeleteBook", opOut, some ⟨"google.protobuf.Empty".toList, "DeleteBookMetadata".toList⟩⟩
+def delShelf : Method := ⟨"DeleteShelf", opOut, some ⟨"google.protobuf.Empty".toList, "DeleteShelfMetadata".toList⟩⟩
+/-- the response type of this one is the metadata type of nobody, its metadata type is the response type of `delBook` -/
+def crossed : Method := ⟨"Crossed", opOut, some ⟨"Book".toList, "google.protobuf.Empty".toList⟩⟩
+
+/-- two methods sharing the response type keep their own metadata types; raw methods stay raw -/
+example : loadService delApi metaFile [delBook, ⟨"Raw", opOut, none⟩, delShelf, crossed] =
+    .ok [some ("google.protobuf.Empty".toList, "acme.lib.v1.DeleteBookMetadata".toList), none,
+         some ("google.protobuf.Empty".toList, "acme.lib.v1.DeleteShelfMetadata".toList),
+         some ("acme.lib.v1.Book".toList, "google.protobuf.Empty".toList)] := by decide
+
+/-- annotation present, both names empty, after a good method: the build raises TypeError -/
+example : loadService delApi metaFile [delBook, ⟨"Bad", opOut, some ⟨[], []⟩⟩, delShelf] = .error .typeError := by decide
+
+example : hasLro [none, some ([], [])] = true ∧ hasLro [none, none] = false := by decide
+
+example : futureCode true ['v','1'] [['o','p','e','r','a','t','i','o','n']] [] =
+    some ⟨futureModule true, futureModule true, futureModule true⟩ := by decide
+
+example : futureCode false ['v','1'] [['l','i','b'], ['o','p','e','r','a','t','i','o','n']] [] =
+    some ⟨['o','p','e','r','a','t','i','o','n'], ['g','a','c','_','o','p','e','r','a','t','i','o','n'],
+          ['g','a','c','_','o','p','e','r','a','t','i','o','n']⟩ := by decide
+
+def getRule (uri : String) (more : List Binding := []) : YamlRule :=
+  ⟨getOperationSelector, ⟨"get".toList, uri.toList, []⟩, more⟩
+
+/-- default rule; a yaml rule; an additional binding that fits when the primary does not; the last of two
+rules with the same selector wins; rules of other services never reach the operations client -/
+example : opsGetPath (opsHttpTable [] []) "v2".toList "shelves/s1/operations/op7".toList
+    = some ("get".toList, "/v2/shelves/s1/operations/op7".toList) := by decide
+example : opsGetPath (opsHttpTable [] [getRule "/v9/{name=shelves/*/operations/*}"]) "v2".toList "shelves/s1/operations/op7".toList
+    = some ("get".toList, "/v9/shelves/s1/operations/op7".toList) := by decide
+example : opsGetPath (opsHttpTable [] [getRule "/v9/{name=operations/*}" [⟨"get".toList, "/v8/{name=shelves/*/operations/*}:poll".toList, []⟩]])
+    "v2".toList "shelves/s1/operations/op7".toList = some ("get".toList, "/v8/shelves/s1/operations/op7:poll".toList) := by decide
+example : opsGetPath (opsHttpTable [] [getRule "/v9/{name=**}", getRule "/v7/{name=**}"]) "v2".toList "a/operations/b".toList
+    = some ("get".toList, "/v7/a/operations/b".toList) := by decide
+example : opsHttpTable [] [⟨"acme.lib.v1.Library.GetOperation".toList, ⟨"get".toList, "/x/{name=**}".toList, []⟩, []⟩] = [] := by decide
+/-- a name the default pattern does not accept: no URL (api-core raises ValueError) -/
+example : opsGetPath (opsHttpTable [] []) "v1".toList "operations/op1".toList = none := by decide
+
+/-- a caller who looks at the future before asking for the result: 3 polls in total, one CancelOperation,
+and the same result as a bare `result()`; afterwards the future is inert -/
+example : exec "B".toList "M".toList
+    (Fut.init ⟨false, some ⟨"M".toList, 1⟩, .neither⟩
+      [⟨false, some ⟨"M".toList, 2⟩, .neither⟩, ⟨false, none, .neither⟩, ⟨true, some ⟨"M".toList, 4⟩, .response ⟨"B".toList, 9⟩⟩, ⟨true, none, .error 13⟩])
+    [.metadata, .done, .metadata, .cancel, .result, .cancel, .exception, .running]
+  = (⟨⟨true, some ⟨"M".toList, 4⟩, .response ⟨"B".toList, 9⟩⟩, [⟨true, none, .error 13⟩], 3, 1⟩,
+     [.md (some (.ok "M".toList 1)), .flag false, .md (some (.ok "M".toList 2)), .flag true, .res (.ok "B".toList 9),
+      .flag false, .exc none, .flag false]) := by decide
+
+/-- `exception()` on a failed operation returns the error; `result()` raises it -/
+example : (exec "B".toList "M".toList (Fut.init ⟨false, none, .neither⟩ [⟨true, none, .error 5⟩]) [.exception, .result]).2
+    = [.exc (some (.apiError 5)), .res (.apiError 5)] := by decide
+
+end Examples2
+
 /-! ## `resolve` IS the code's current `Address.resolve`
 `Pinned.Funcs.address_resolve` is the Lean translation of `gapic/schema/metadata.py: Address.resolve` produced by
 harness/pyfun2lean.py; `Bridge.Funcs.address_resolve` re-proves on every run that translating /repo's current source
